@@ -49,9 +49,9 @@ def has_known_structure(w: World, obs: Obs, memory: bool) -> bool:
 class Twin:
     """Two (or more) worlds stepped together."""
 
-    def __init__(self, worlds: list[World]):
+    def __init__(self, worlds: list[World], srcs: list | None = None):
         self.ws = worlds
-        self.obs = [Obs(w) for w in worlds]
+        self.obs = [Obs(w, s) for w, s in zip(worlds, srcs or [None] * len(worlds))]
 
     def set_inputs(self, vals: dict) -> None:
         for o in self.obs:
@@ -89,6 +89,84 @@ def compare_obs(a: dict, b: dict, res: dict, where, what: str, keys=None, first_
                                    "second": repr(b[k])[:300], "where": where})
     if not common:
         probe(res, "no_common_observation_point")
+
+
+def _trace_point(w: World, obs: Obs, group):
+    """One tick's observation with anchor identity kept: (group, anchor entity) -> value."""
+    out = {}
+    for name, lst in obs.anchors.items():
+        g = group(name) if group else name
+        for num, label in lst:
+            sigs = w.read(num)
+            if label is None or label in _WILD_NAMES:
+                val = tuple(sorted((k[1], v) for k, v in sigs.items()))
+            else:
+                val = sigs.get(gamedata.sk(label), 0)
+            out[("anchor", g, num)] = val
+    for e in w.ents.values():
+        if e.kind == "other":
+            c = w.condition_of(e.num)
+            if c is not None:
+                out[("cond", e.name, e.x, e.y)] = c
+    return out
+
+
+def compare_free_running(tw: "Twin", res: dict, where, what: str, group=None, shift: int = 6,
+                         window: int = 16, first_may_expose_fewer: bool = False) -> int:
+    """Programs with free-running cells never come to rest, and the language promises no latency:
+    two builds of one program may differ by a few ticks of delay on any path.  Run both builds,
+    record every observation point per tick, and require for every point a constant shift d
+    (|d| <= shift) under which the two traces agree over a window taken after warm-up.  Anchors of
+    one name group are matched one-to-one (the first build may expose fewer when names are local).
+    Returns the number of ticks stepped per world."""
+    wa, wb = tw.ws[0], tw.ws[1]
+    warm = max(len(wa.combs), len(wb.combs)) + 4
+    T = warm + 2 * shift + window
+    tr = [{}, {}]
+    for _t in range(T):
+        for i in (0, 1):
+            for k, v in _trace_point(tw.ws[i], tw.obs[i], group).items():
+                tr[i].setdefault(k, []).append(v)
+            tw.ws[i].step()
+    lo, hi = warm + shift, T - shift
+
+    def same(a, b):
+        return any(all(a[t] == b[t + d] for t in range(lo, hi)) for d in range(-shift, shift + 1))
+
+    n = 0
+    for k in sorted((k for k in tr[0] if k[0] == "cond" and k in tr[1]), key=repr):
+        n += 1
+        if not same(tr[0][k], tr[1][k]):
+            raise Violation(what, {"at": list(map(str, k)), "first": repr(tr[0][k][lo:lo + 12]),
+                                   "second": repr(tr[1][k][lo:lo + 12]), "where": where})
+    groups = [{}, {}]
+    for i in (0, 1):
+        for k, v in tr[i].items():
+            if k[0] == "anchor":
+                groups[i].setdefault(k[1], []).append(v)
+    for g in sorted(set(groups[0]) & set(groups[1])):
+        la, lb = groups[0][g], groups[1][g]
+        n += 1
+        if len(la) > len(lb) or (len(la) < len(lb) and not first_may_expose_fewer):
+            raise Violation(what, {"at": ["anchor", g], "first": f"{len(la)} anchors",
+                                   "second": f"{len(lb)} anchors", "where": where})
+        ok = [[same(a, b) for b in lb] for a in la]
+
+        def assign(i, used):
+            if i == len(la):
+                return True
+            for j in range(len(lb)):
+                if j not in used and ok[i][j] and assign(i + 1, used | {j}):
+                    return True
+            return False
+
+        if not assign(0, frozenset()):
+            raise Violation(what, {"at": ["anchor", g], "first": repr([a[lo:lo + 10] for a in la])[:400],
+                                   "second": repr([b[lo:lo + 10] for b in lb])[:400], "where": where})
+    res["compared"] += n
+    if not n:
+        probe(res, "no_common_observation_point")
+    return T
 
 
 # ----------------------------------------------------------------------------- AST transforms
